@@ -61,6 +61,16 @@ Definition is_registry (p : String.string * String.string) : bool := String.eqb 
 (* Static footprint extraction (tools/gofootprint, go/ast + go/types): expected tables   *)
 (* ------------------------------------------------------------------------------------ *)
 
+(* NAMING.  The tables of ParamsFoot.v use canonical identifiers, so that renaming a private field, a local, a
+   parameter, a receiver or a private helper, or reordering declarations, changes nothing (tools/gofootprint/canon.go):
+   a field is <struct>.<tag><n> - tag = kind of its type (int, bool, slice, map, chan, class = link to the class, T = type
+   parameter, or the bare name of its named type: CollatorLike, ListLike, ArrayLike, QueueLike, RankingFunction, Mutex ...),
+   n = ordinal among the fields of that struct with that tag (e.g. collection.set_.CollatorLike0 is set_.collator_,
+   agent.iterator_.slice0 is iterator_.values_, agent.collator_.int0 / int1 are depth_ / maximum_); a parameter is
+   "arg n" / "parameter n"; all unexported functions / methods of a type are ONE identifier: <private> in the place
+   of the method name;
+   exported names, type names and package-level variables are kept.  build/footprint.json has the real names. *)
+
 (* References that outlive a call and come from somewhere else than a fresh allocation: (where it is
    kept, where it comes from).  Objects without state of their own (every field is the link to the
    class: the notation, the inspector) are omitted by the tool; if notation_ gets a field again all
@@ -76,23 +86,23 @@ Definition is_registry (p : String.string * String.string) : bool := String.eqb 
      per-call copy: [static_collator_shares_depth] below is false); module.Set forwards its argument;
    - the scanner keeps the token queue of the parser that started it (a synchronised queue: C04/C05). *)
 Definition expected_shared_edges : list (String.string * String.string) := [
-  ("agent.iterator_.values_", "arg 1:values of agent.(*iteratorClass_).MakeFromArray");
-  ("agent.sorter_.ranker_", "arg 1:ranker of agent.(*sorterClass_).MakeWithRanker");
-  ("arg 1:collator of collection.(*setClass_).MakeWithCollator", "arg 1:arguments of module.Set");
-  ("arg 1:collator of collection.(*setClass_).MakeWithCollator", "arg 1:first of collection.(*setClass_).And field collection.set_.collator_");
-  ("arg 1:collator of collection.(*setClass_).MakeWithCollator", "arg 1:first of collection.(*setClass_).Or field collection.set_.collator_");
-  ("arg 1:collator of collection.(*setClass_).MakeWithCollator", "arg 1:first of collection.(*setClass_).Sans field collection.set_.collator_");
-  ("arg 1:first of collection.(*setClass_).Or", "arg 1:first of collection.(*setClass_).Xor field collection.set_.collator_");
-  ("arg 1:first of collection.(*setClass_).Sans", "arg 1:first of collection.(*setClass_).Xor");
-  ("arg 1:first of collection.(*setClass_).Sans", "arg 2:second of collection.(*setClass_).Xor");
-  ("arg 1:ranker of agent.(*sorterClass_).MakeWithRanker", "arg 1:ranker of collection.(array_).SortValuesWithRanker");
-  ("arg 1:ranker of agent.(*sorterClass_).MakeWithRanker", "receiver of agent.(*collator_).rankMaps");
-  ("arg 1:ranker of collection.(*list_).SortValuesWithRanker", "arg 1:ranker of collection.(*catalog_).SortValuesWithRanker");
-  ("arg 1:ranker of collection.(*list_).SortValuesWithRanker", "arg 1:ranker of collection.(*list_).SortValuesWithRanker");
-  ("arg 1:ranker of collection.(array_).SortValuesWithRanker", "arg 1:ranker of collection.(*list_).SortValuesWithRanker");
-  ("arg 2:tokens of cdcn.(*scannerClass_).Make", "field cdcn.parser_.tokens_");
-  ("cdcn.scanner_.tokens_", "arg 2:tokens of cdcn.(*scannerClass_).Make");
-  ("collection.set_.collator_", "arg 1:collator of collection.(*setClass_).MakeWithCollator")]%string.
+  ("agent.iterator_.slice0", "arg 1 of agent.(*iteratorClass_).MakeFromArray");
+  ("agent.sorter_.RankingFunction0", "arg 1 of agent.(*sorterClass_).MakeWithRanker");
+  ("arg 1 of agent.(*sorterClass_).MakeWithRanker", "arg 1 of collection.(array_).SortValuesWithRanker");
+  ("arg 1 of agent.(*sorterClass_).MakeWithRanker", "receiver of agent.(*collator_).<private>");
+  ("arg 1 of collection.(*list_).SortValuesWithRanker", "arg 1 of collection.(*catalog_).SortValuesWithRanker");
+  ("arg 1 of collection.(*list_).SortValuesWithRanker", "arg 1 of collection.(*list_).SortValuesWithRanker");
+  ("arg 1 of collection.(*setClass_).MakeWithCollator", "arg 1 of collection.(*setClass_).And field collection.set_.CollatorLike0");
+  ("arg 1 of collection.(*setClass_).MakeWithCollator", "arg 1 of collection.(*setClass_).Or field collection.set_.CollatorLike0");
+  ("arg 1 of collection.(*setClass_).MakeWithCollator", "arg 1 of collection.(*setClass_).Sans field collection.set_.CollatorLike0");
+  ("arg 1 of collection.(*setClass_).MakeWithCollator", "arg 1 of module.Set");
+  ("arg 1 of collection.(*setClass_).Or", "arg 1 of collection.(*setClass_).Xor field collection.set_.CollatorLike0");
+  ("arg 1 of collection.(*setClass_).Sans", "arg 1 of collection.(*setClass_).Xor");
+  ("arg 1 of collection.(*setClass_).Sans", "arg 2 of collection.(*setClass_).Xor");
+  ("arg 1 of collection.(array_).SortValuesWithRanker", "arg 1 of collection.(*list_).SortValuesWithRanker");
+  ("arg 2 of cdcn.(*scannerClass_).Make", "field cdcn.parser_.QueueLike0");
+  ("cdcn.scanner_.QueueLike0", "arg 2 of cdcn.(*scannerClass_).Make");
+  ("collection.set_.CollatorLike0", "arg 1 of collection.(*setClass_).MakeWithCollator")]%string.
 
 (* Functions that write through something that is neither their receiver nor memory allocated in the
    call.  Reviewed: the sorter works in place on the caller's Go array (that array is the caller's
@@ -101,11 +111,11 @@ Definition expected_shared_edges : list (String.string * String.string) := [
    module.Queue/Stack append to a slice that the flow-insensitive analysis cannot separate from the
    caller's argument (in fact it is re-made before the append). *)
 Definition expected_escapes : list (String.string * String.string) := [
+  ("agent.(*sorter_).<private>", "parameter 1");
+  ("agent.(*sorter_).<private>", "parameter 3");
   ("agent.(*sorter_).ReverseValues", "parameter 1");
   ("agent.(*sorter_).ShuffleValues", "parameter 1");
   ("agent.(*sorter_).SortValues", "parameter 1");
-  ("agent.(*sorter_).mergeArrays", "parameter 3");
-  ("agent.(*sorter_).sortValues", "parameter 1");
   ("cdcn.(*scannerClass_).Make", "parameter 2");
   ("collection.(*queueClass_).Fork", "parameter 2");
   ("collection.(*queueClass_).Split", "parameter 2");
